@@ -52,4 +52,4 @@ META_CONTRACTS = [clauses_only(c, META, "C16", "Meta") for c in (
 
 # Dataset construction and Dataset-wide operations leave their operands untouched (the clauses named operand:... / inputs-untouched)
 FRAME_CONTRACTS += [clauses_only(c, r"untouched|^operand", "C15", "Frame") for c in (
-    dataset.DatasetTake, dataset.DatasetTakeAxis, dataset.DatasetScalarOp, dataset.DatasetReduce, dataset.DatasetJoin, dataset.DatasetConstruct, dataset.DatasetReindexAxis)]
+    dataset.DatasetTake, dataset.DatasetTakeAxis, dataset.DatasetScalarOp, dataset.DatasetReduce, dataset.DatasetJoin, dataset.DatasetConstruct, dataset.DatasetReindexAxis, dataset.DatasetDatasetOp)]
